@@ -329,7 +329,7 @@ def mon_c03(tr, drained=True):
                         late = True
                     out.append(("reply:second-terminal-reply" + (":locked-error-by-ack-registered-after-rollback" if late else ""),
                                 "request %d answered twice (result %d)" % (rp["req"], rp["result"]), i))
-    if drained and tr.steps and tr.steps[-1]["after"] is not None and not any(s["panic"] for s in tr.steps):
+    if drained and tr.steps and tr.steps[-1]["after"] is not None and not any(s["panic"] for s in tr.steps) and not ack_pending_at_end(tr):
         for rq in tr.reqs.values():
             if terminal[rq["req"]] == 0 and expired[rq["req"]] == 0:
                 out.append(("reply:request-never-answered", "request %d (%s) has no terminal reply after the drain phase" % (rq["req"], "lock" if rq["islock"] else "unlock"), len(tr.steps) - 1))
@@ -483,6 +483,15 @@ def mon_c06(tr, upper=True):
     return out
 
 
+def ack_pending_at_end(tr):
+    """the history ends while an acknowledgement is still outstanding (an ack-lock granted from the queue by the last
+    unlock round of the drain phase, after the last acknowledgement round): the state is not quiescent, the drain-phase
+    rules (everything answered, everything reclaimed) do not apply -- acknowledgements always arrive eventually in the
+    real system (the leader's own flush), the generated history just ended before them"""
+    s = tr.steps[-1]["after"]
+    return bool(s) and any(h["ack"] != 255 for k in s["keys"].values() for h in live_holders(k))
+
+
 # ------------------------------------------------------------------------------------------------ C17
 def mon_c17(tr, drained=True):
     out = []
@@ -514,7 +523,7 @@ def mon_c17(tr, drained=True):
             if g and g["key"] in s["keys"] and rp is st["replies"][-1] and not newpend:
                 if rp["lcount"] != s["keys"][g["key"]]["locked"] % 65536:
                     out.append(("counts:LCount", "reply to %d reports LCount %d, key holds %d" % (rp["req"], rp["lcount"], s["keys"][g["key"]]["locked"]), i))
-    if drained and tr.steps and tr.steps[-1]["after"] and not any(s["panic"] for s in tr.steps) and not out:
+    if drained and tr.steps and tr.steps[-1]["after"] and not any(s["panic"] for s in tr.steps) and not out and not ack_pending_at_end(tr):
         s = tr.steps[-1]["after"]
         if s["LD"] != 0 or s["W"] != 0 or s["K"] != 0 or s["keys"]:
             out.append(("counts:not-zero-after-drain", "after the drain phase LockedCount=%d WaitCount=%d KeyCount=%d keys=%s" % (s["LD"], s["W"], s["K"], list(s["keys"])), len(tr.steps) - 1))
@@ -661,6 +670,12 @@ def mon_c11(tr):
             if rp["result"] == 0 and kind == "req" and rp["lrcount"] > 1 and g["expried"] > 0:
                 out.append(("ack:reentrant-relock-answered-before-acknowledgement", "re-entrant re-lock %d carrying require-ack answered SUCCED at once (its record is acknowledged later)" % rp["req"], i))
                 continue
+            # the update flavour of the same root cause: an update (flag 0x02) carrying require-ack is answered at once
+            # (LOCKED_ERROR is the update's regular answer) while its UPDATED record(s) are registered for acknowledgement
+            if rp["result"] == R["LOCKED"] and kind == "req" and g["flag"] & 2 and rq and rq["req"] == rp["req"] and \
+                    any(n and n[0] == "reg" and int(n[2]) == rp["req"] for n in st.get("notes", [])):
+                out.append(("ack:reentrant-relock-answered-before-acknowledgement", "update %d carrying require-ack answered at once while its UPDATED record is registered for acknowledgement" % rp["req"], i))
+                continue
             if rp["result"] == 0 and kind == "req" and g["expried"] > 0 and rp["lrcount"] == 1:
                 ka = st["after"]["keys"].get(g["key"])
                 h = [h for h in (live_holders(ka) if ka else []) if h["req"] == rp["req"]]
@@ -735,6 +750,9 @@ def mon_c11(tr):
             # requests served by the wake-up pass of the same step report the value from immediately before their own
             # operation, i.e. the value right after the rollback
             served = [rp for rp in st["replies"] if rp["req"] != rq_id and rp["result"] == 0 and tr.reqs.get(rp["req"], {}).get("key") == gr["key"]]
+            my_pos = max(j for j, rp in enumerate(st["replies"]) if rp["req"] == rq_id)
+            if any(j < my_pos for j, rp in enumerate(st["replies"]) if rp in served):
+                continue        # a request of the key was served BEFORE this roll-back in the same step (another timeout's wake-up pass): not attributable
             if served:
                 cur = "nil" if served[0]["data"] in ("-", "nil") else served[0]["data"] + "/0/0"
             if strip_aof(cur) != strip_aof(gr["before"]):
